@@ -283,7 +283,19 @@ def process_stage(run, count):
     run.notes.append("process stage: %d scripted calls x 3 processes (PYTHONHASHSEED 0, 1, 4242; the third with polluting earlier calls)" % (4 * count))
 
 
+def sequences_stage(run, want):
+    """Behaviours of the state machine replayed on live objects: random walks (and exhaustive depth 2 in thorough)."""
+    for i, kind in enumerate(ALL_KINDS):
+        mc.sequences(run, kind, q(run, 6, 8), want, walks=q(run, 150, 2500), seed=run.seed + i)
+    if run.tier == "thorough":
+        for kind in ALL_KINDS:
+            mc.sequences(run, kind, 2, want)
+    else:
+        mc.sequences(run, ALL_KINDS[run.seed % 5], 1, want)
+
+
 def plan_C14(run):
+    sequences_stage(run, {"C14"})
     pairs = [(a, b) for a in range(0, 31, 3) for b in range(0, 31, 3)] if run.tier == "thorough" else None
     threads_stage(run, q(run, 60, 400), None)
     if pairs:
@@ -331,6 +343,7 @@ def plan_C17(run):
 
 
 def plan_C18(run):
+    sequences_stage(run, {"C18"})
     n = q(run, 150, 3000)
     campaign(run, "object-campaign", {"C18"}, lambda s, r: drivers.object_campaign(s, r, n))
     run.require_classes(["op=cmp", "op=ordinal", "op=sorted", "raise:ValueError"], "object-campaign")
@@ -343,12 +356,13 @@ def plan_C19(run):
     campaign(run, "model-groups", {"C19"}, lambda s, r: drivers.model_groups(s, r, n))
     campaign(run, "api", {"C19"}, lambda s, r: drivers.api_groups(s))
     campaign(run, "hashes", {"C19"}, lambda s, r: drivers.object_campaign(s, r, q(run, 40, 400)))
-    run.require_classes(["group:C19:model", "group:C19:same", "op=api", "op=hash"], "model-groups")
+    run.require_classes(["group:C19:model", "group:C19:same", "op=api", "op=hash", "op=cmp"], "model-groups")
     return {"rule": "the same call (rate and the three predictions, value-identical ratings, same parameters) on all five classes; "
                     "operation tables and signatures compared; hashes of equal (id, mu, sigma) compared across classes"}
 
 
 def plan_C20(run):
+    sequences_stage(run, {"C20"})
     n = q(run, 120, 2500)
     campaign(run, "object-campaign", {"C20"}, lambda s, r: drivers.object_campaign(s, r, n))
     campaign(run, "twin-leagues", {"C20"}, lambda s, r: drivers.restore_groups(s, r, n))
